@@ -42,6 +42,7 @@ import nb
 
 alias AP = Plain
 alias AL = List(Plain)
+alias AFile = File
 
 struct Plain
     a Int32
@@ -117,8 +118,19 @@ union_closed UC
     m Map(String, List(String))
     u2 nb.Funion
     k Kid
+    lf File
+    nlf Folder?
+    alf AFile
     example default
         s = default
+    example leaf
+        lf = default
+    example nleaf
+        nlf = default
+    example nleafnull
+        nlf = null
+    example aleaf
+        alf = default
     example n1
         ns = null
     example n2
@@ -154,6 +166,10 @@ struct Holder
         uc = v
         uo = ex
         lu = []
+    example third
+        uc = leaf
+        uo = inherited
+        lu = [leaf, aleaf, nleaf, nleafnull]
 ''')]),
 ]
 
@@ -290,6 +306,23 @@ def strip_catch_all(api, d, label, value):
     return False
 
 
+def _equal_up_to_bool_as_number(a, b):
+    if isinstance(a, bool) != isinstance(b, bool) and isinstance(a, (bool, int, float)) and isinstance(b, (bool, int, float)):
+        return a == b
+    if isinstance(a, dict) and isinstance(b, dict):
+        return a.keys() == b.keys() and all(_equal_up_to_bool_as_number(a[k], b[k]) for k in a)
+    if isinstance(a, list) and isinstance(b, list):
+        return len(a) == len(b) and all(_equal_up_to_bool_as_number(x, y) for x, y in zip(a, b))
+    if isinstance(a, str) and isinstance(b, str) and a != b:
+        # text that base64-decodes leniently (characters outside the alphabet are dropped) comes back in canonical form: unspecified zone
+        import base64
+        try:
+            return base64.b64encode(base64.b64decode(b)).decode('ascii') == a
+        except Exception:  # noqa
+            return False
+    return rtbase.json_equal(a, b)
+
+
 def examples_of_api(api, pkg, specs, trace=()):
     oc = collections.Counter()
     out_v = []
@@ -344,7 +377,10 @@ def examples_of_api(api, pkg, specs, trace=()):
                     oc['example-reencode-raised'] += 1
                     out_v.append(viol('example-reencode-raised:%s:%s' % (kind, type(e).__name__), 're-encoding the decoded example %s raised %r' % (label, e), inputs, repr(e)))
                     continue
-                if not rtbase.json_equal(again, doc):
+                if not rtbase.json_equal(again, doc) and _equal_up_to_bool_as_number(again, doc):
+                    # a boolean literal given where a number is declared: unspecified zone (the runtime accepts bool as an Integral on purpose)
+                    oc['example-unspecified:bool-for-number-or-lenient-base64'] += 1
+                elif not rtbase.json_equal(again, doc):
                     oc['example-differs'] += 1
                     out_v.append(viol('example-roundtrip:%s' % kind, 'example %s of %s.%s re-encodes to %s, not to %s' % (label, nsn, d.name, json.dumps(again)[:200], json.dumps(doc)[:200]),
                                       inputs, json.dumps(again), json.dumps(doc)))
@@ -355,7 +391,7 @@ def examples_of_api(api, pkg, specs, trace=()):
 
 def model_task(item):
     kind, payload, trace = item
-    specs = payload if kind == 'text' else render.render(payload)
+    specs = payload if kind in ('text', 'matrix') else render.render(payload)
     out = impl.compile_specs(specs)
     if out.kind != 'ok':
         if kind == 'text':
@@ -495,6 +531,15 @@ def run(tier, seed):
                 nmodels += 1
     for name, specs_ in RICH_EXAMPLES:
         items.append(('text', specs_, (name,)))
+    # example literal x declared type matrix (every literal kind, valid or not, as the example value of every type, in a struct
+    # field and in a union member): whatever the compiler accepts must decode strictly and re-encode to the same document
+    from mc import textspace
+    nmatrix = 0
+    for label, specs_ in textspace.literal_matrix_items(tier):
+        if label.startswith(('matrix:example:', 'matrix:union-example:')):
+            items.append(('matrix', specs_, (label,)))
+            nmatrix += 1
+    r.bounds['example_literal_matrix'] = nmatrix
     r.bounds.update({'defaulted_fields': len(fields), 'example_models': nmodels, 'per_profile_state_budget': budget, 'rich_example_specs': len(RICH_EXAMPLES)})
     r.sample({'defaults': [(f, render.texpr(t) if not (type(t) is tuple) else t[1], repr(v)) for f, t, v, a in fields[:8]]})
     r.sample({'rich_example_spec': RICH_EXAMPLES[0][1][1][1][:600]})
@@ -508,7 +553,7 @@ def run(tier, seed):
 def replay(rep):
     if 'specs' in rep['inputs']:
         specs = [tuple(x) for x in rep['inputs']['specs']]
-        out = model_task(('text', specs, ()))
+        out = model_task(('matrix', specs, ()))
         if out['viol']:
             print('VIOLATION property=%s replay=replayed' % PROP)
             return 1
